@@ -585,6 +585,31 @@ def check(ctx):
             if r[0] != "ok" or not isinstance(r[1], (int, float)) or abs(float(r[1]) - exp) > TOL:
                 ctx.violation("binomial-float-range", text, "%.12g" % exp, repr(r), "ctx.real.value(%r)" % text)
 
+    # (1-p)^n or p^n in the SUBNORMAL range (n ln(1/(1-p)) between 708.4 and 744.4): a recurrence started from that term is non-zero
+    # and has lost its digits — every event form must still be the mass on the condition, and stay inside [0, 1]
+    sub = []
+    for p_ in (0.7, 0.9, 0.6, 0.3):
+        for base in (1 - p_, p_):
+            l = -math.log(base)
+            if l <= 0:
+                continue
+            for tgt in (712.0, 738.0, 744.0):
+                n_ = int(tgt / l)
+                if 200 < n_ <= 2100 and (n_, p_) not in sub:
+                    sub.append((n_, p_))
+    sub.sort()
+    if ctx.quick():
+        sub = [c for c in sub if c[0] <= 820][1::2][:6]
+    for n_, p_ in sub:
+        m_ = int(n_ * p_)
+        for text, exp in (("P(Binomial(%d, %s) <= %d)" % (n_, ktext(p_), n_), 1.0), ("P(Binomial(%d, %s) <= %d)" % (n_, ktext(p_), m_), ref_binom(n_, p_, 0, m_)),
+                          ("P(Binomial(%d, %s) > %d)" % (n_, ktext(p_), m_), ref_binom(n_, p_, m_ + 1, n_)), ("P(%d <= Binomial(%d, %s) < %d)" % (m_ - 5, n_, ktext(p_), m_ + 5), ref_binom(n_, p_, m_ - 5, m_ + 4)),
+                          ("P(Binomial(%d, %s) = %d)" % (n_, ktext(p_), m_), ref_binom(n_, p_, m_, m_)), ("P(Binomial(%d, %s) >= 0)" % (n_, ktext(p_)), 1.0)):
+            r = run(text)
+            ctx.count("binomial-subnormal:" + text, bucket="binomial-subnormal-term")
+            if r[0] != "ok" or not isinstance(r[1], (int, float)) or abs(float(r[1]) - exp) > TOL or not (0 <= float(r[1]) <= 1 + 1e-12):
+                ctx.violation("binomial-float-range:" + text, text, "%.12g" % exp, repr(r), "ctx.real.value(%r)" % text)
+
     # ---------------- correspondence with the Lean model ----------------
     def agree(real, model, info):
         if real == model:
